@@ -225,11 +225,79 @@ pub fn run(ctx: &mut Ctx) {
     ctx.count(&format!("inputs parsed first in the probe child process (single allocations above 1 GiB refused): {}", PROBED.load(Ordering::Relaxed)));
 }
 
+/// an SMX file written out by hand with one object whose point-count field holds `declared` and which is followed by
+/// `backing` points (16 bytes each), no triangles, no checkpoints. Offsets: num_objects @60, the object @64 (centre,
+/// radius), its point count @80, triangle count @84, points from @88.
+fn big_smx(declared: i32, backing: usize) -> Vec<u8> {
+    let mut b = b"LFSSMX".to_vec();
+    b.extend_from_slice(&[7, 0, 0, 3, 1, 1]);
+    b.extend_from_slice(&[0u8; 4]);
+    let mut name = b"Blackwood".to_vec(); name.resize(32, 0); b.extend_from_slice(&name);
+    b.extend_from_slice(&[10, 20, 30]);
+    b.extend_from_slice(&[0u8; 9]);
+    b.extend_from_slice(&1i32.to_le_bytes());
+    for v in [1i32, 2, 3, 4] { b.extend_from_slice(&v.to_le_bytes()); }
+    b.extend_from_slice(&declared.to_le_bytes());
+    b.extend_from_slice(&0i32.to_le_bytes());
+    for i in 0..backing { for v in [i as i32, -(i as i32), 7] { b.extend_from_slice(&v.to_le_bytes()); } b.extend_from_slice(&[(i % 251) as u8, 1, 2, 3]); }
+    b.extend_from_slice(&0i32.to_le_bytes());
+    b
+}
+
+/// counts around the 16-bit boundary, and a negative count with enough bytes behind it to satisfy any narrowed reading
+fn big_case(ctx: &mut Ctx, declared: i32, backing: usize) {
+    let b = big_smx(declared, backing);
+    let op = format!("smx.big {} {}", declared, backing);
+    ctx.oracle_eval("smx-count-boundary");
+    if !probe_survives("smx", &b) { return aborted(ctx, "smx", "count-boundary", &op, false); }
+    let (r, peak) = peak_during(|| read_smx(&b));
+    if peak > 64 * b.len() + (1 << 16) { ctx.violation("c17/smx/allocation/count-boundary", "the parser allocated far beyond what the input can justify", &op, "<= 64 x length + 64 KiB", &peak.to_string()); }
+    let valid = declared >= 0 && declared as usize == backing;
+    match r {
+        None => ctx.violation("c17/smx/panic/count-boundary", "the parser panicked", &op, "value or error", "panic"),
+        Some(Err(())) => if valid { ctx.violation("c17/smx/valid-rejected", "a well-formed file was rejected", &op, "ok", "err"); },
+        Some(Ok((p, rem))) => {
+            if declared < 0 { ctx.violation("c17/smx/negative-count-accepted", "a file whose count field is negative was accepted", &op, "err", &format!("{} objects, {} points, {} bytes unread", p.objects.len(), p.objects.first().map(|o| o.points.len()).unwrap_or(0), rem)); return; }
+            if !valid { ctx.violation("c17/smx/truncated-accepted", "a file cut short inside its declared content was accepted as a shorter file", &op, "err", "ok"); return; }
+            let n = p.objects.first().map(|o| o.points.len()).unwrap_or(0);
+            if p.objects.len() != 1 || n != backing || rem != 0 { ctx.violation("c17/smx/write-parse", "a well-formed file does not parse to the structure it holds", &op, &format!("1 object, {} points, 0 bytes unread", backing), &format!("{} objects, {} points, {} unread", p.objects.len(), n, rem)); return; }
+            match write_smx(&p) { Some(Ok(out)) if out == b => {}, _ => ctx.violation("c17/smx/canonical", "for a canonical file the written bytes differ from the bytes read", &op, "identical bytes", "different"), }
+        },
+    }
+}
+
+/// the same for PTH: header (magic, version, revision, node count, finish line) and `backing` nodes of 40 bytes
+fn big_pth_case(ctx: &mut Ctx, declared: i32, backing: usize) {
+    let mut b = b"LFSPTH".to_vec();
+    b.extend_from_slice(&[0, 0]);
+    b.extend_from_slice(&declared.to_le_bytes());
+    b.extend_from_slice(&3i32.to_le_bytes());
+    for i in 0..backing { for k in 0..10u32 { b.extend_from_slice(&((i as u32).wrapping_mul(31).wrapping_add(k)).to_le_bytes()); } }
+    let op = format!("pth.big {} {}", declared, backing);
+    ctx.oracle_eval("pth-count-boundary");
+    if !probe_survives("pth", &b) { return aborted(ctx, "pth", "count-boundary", &op, false); }
+    let (r, peak) = peak_during(|| read_pth(&b));
+    if peak > 64 * b.len() + (1 << 16) { ctx.violation("c17/pth/allocation/count-boundary", "the parser allocated far beyond what the input can justify", &op, "<= 64 x length + 64 KiB", &peak.to_string()); }
+    let valid = declared >= 0 && declared as usize == backing;
+    match r {
+        None => ctx.violation("c17/pth/panic/count-boundary", "the parser panicked", &op, "value or error", "panic"),
+        Some(Err(())) => if valid { ctx.violation("c17/pth/valid-rejected", "a well-formed file was rejected", &op, "ok", "err"); },
+        Some(Ok((p, rem))) => {
+            if declared < 0 { ctx.violation("c17/pth/negative-count-accepted", "a file whose count field is negative was accepted", &op, "err", &format!("{} nodes, {} bytes unread", p.nodes.len(), rem)); return; }
+            if !valid && (declared as usize) > backing { ctx.violation("c17/pth/truncated-accepted", "a file cut short inside its declared content was accepted as a shorter file", &op, "err", "ok"); return; }
+            if valid && (p.nodes.len() != backing || rem != 0) { ctx.violation("c17/pth/write-parse", "a well-formed file does not parse to the structure it holds", &op, &format!("{} nodes, 0 bytes unread", backing), &format!("{} nodes, {} unread", p.nodes.len(), rem)); return; }
+            if valid { match write_pth(&p) { Some(Ok(out)) if out == b => {}, _ => ctx.violation("c17/pth/canonical", "for a canonical file the written bytes differ from the bytes read", &op, "identical bytes", "different"), } }
+        },
+    }
+}
+
 fn run_inner(ctx: &mut Ctx) {
     if let Some(lines) = ctx.replay.clone() {
         for l in lines {
             let w: Vec<&str> = l.split_whitespace().collect();
             match w.as_slice() {
+                ["smx.big", d, n] => big_case(ctx, d.parse().unwrap_or(0), n.parse().unwrap_or(0)),
+                ["pth.big", d, n] => big_pth_case(ctx, d.parse().unwrap_or(0), n.parse().unwrap_or(0)),
                 ["pth", h] => pth_case(ctx, &unhex(h), "replay", true),
                 ["smx", h] => smx_case(ctx, &unhex(h), "replay", true),
                 _ => {},
@@ -284,6 +352,14 @@ fn run_inner(ctx: &mut Ctx) {
             let mut sb2 = write_smx(&s).unwrap().unwrap();
             if sb2.len() > 84 { sb2[80..84].copy_from_slice(&count.to_le_bytes()); smx_case(ctx, &sb2, "hostile-count", true); }
         }
+    }
+    // element counts around the 16-bit boundary (a count narrowed on its way from the file to the reader shows here),
+    // a declared count larger than what follows, and negative counts backed by plenty of bytes
+    for (d, n) in [(65535i32, 65535usize), (65536, 65536), (65537, 65537), (65536, 65530), (131072, 65536), (-1, 65535), (-1, 65536), (-65536, 65536), (i32::MIN, 70000), (-65535, 4)] {
+        big_case(ctx, d, n);
+    }
+    for (d, n) in [(65535i32, 65535usize), (65536, 65536), (65537, 65537), (65536, 65500), (-1, 65536), (-65536, 65536)] {
+        big_pth_case(ctx, d, n);
     }
     // random bytes with and without the magic
     for i in 0..(if quick { 1500 } else { 100_000 }) {
